@@ -398,7 +398,7 @@ func c18Gen(rt *rapid.T) c18Scenario {
 	n := rapid.IntRange(1, 14).Draw(rt, "nops")
 	for i := 0; i < n; i++ {
 		op := c18Op{U: rapid.SampledFrom([]int{0, 0, 1, 1, 2, 3, 4, 5}).Draw(rt, "u")}
-		op.K = rapid.SampledFrom([]string{"post", "post", "post", "postgood", "postgood", "badpost", "get", "list", "delete", "reopen", "connect", "connect", "upload", "upload"}).Draw(rt, "k")
+		op.K = rapid.SampledFrom([]string{"post", "post", "post", "postgood", "postgood", "postgoodless", "badpost", "get", "list", "delete", "reopen", "connect", "connect", "upload", "upload"}).Draw(rt, "k")
 		switch op.K {
 		case "post":
 			full := rapid.IntRange(0, 2).Draw(rt, "full") == 0
@@ -412,8 +412,10 @@ func c18Gen(rt *rapid.T) c18Scenario {
 					}
 				}
 			}
-		case "postgood":
-			// a record that authorises its owner: positive rates and credit, expiry in the future
+		case "postgood", "postgoodless":
+			// a record that authorises its owner: positive rates and credit, expiry in the future ("less": with one of
+			// the six fields left out - the administrator never set it)
+			less := op.K == "postgoodless"
 			op.K = "post"
 			pos := rapid.SampledFrom([]int64{1, 2, 100, 1000000, 1 << 40, 1<<63 - 1, 12345678901})
 			for f := range c18Fields {
@@ -421,6 +423,9 @@ func c18Gen(rt *rapid.T) c18Scenario {
 			}
 			op.Val = [6]int64{rapid.SampledFrom([]int64{1, 2, 10, 1<<31 - 1}).Draw(rt, "gcap"), pos.Draw(rt, "gup"), pos.Draw(rt, "gdown"), pos.Draw(rt, "gupc"), pos.Draw(rt, "gdownc"),
 				rapid.SampledFrom([]int64{1700000000, 1700000001, 1 << 40, 1<<63 - 1}).Draw(rt, "gexp")}
+			if less {
+				op.Set[rapid.IntRange(0, 5).Draw(rt, "omit")] = false
+			}
 		case "badpost":
 			op.Bad = rapid.SampledFrom([]string{"mismatch", "mismatch", "garbage", "notb64", "empty", "illtyped", "illtyped", "illtyped"}).Draw(rt, "bad")
 			op.Val[3] = vals.Draw(rt, "bv")
